@@ -12,8 +12,17 @@ import (
 	"verif/harness/c09lib"
 	"verif/harness/hx"
 
+	tokens "github.com/KiraCore/sekai/x/tokens"
+	tokenstypes "github.com/KiraCore/sekai/x/tokens/types"
 	sdk "github.com/cosmos/cosmos-sdk/types"
 )
+
+// a passed TokensWhiteBlackChange proposal, applied through the real proposal handler
+type wbProp struct {
+	Black  bool     `json:"is_blacklist"`
+	Add    bool     `json:"is_add"`
+	Tokens []string `json:"tokens"`
+}
 
 var defaultPoor = []string{"submit_proposal", "set_network_properties", "vote_proposal", "claim_councilor", "whitelist_permissions",
 	"blacklist_permissions", "create_role", "assign_role", "unassign_role", "whitelist_role_permission", "blacklist_role_permission",
@@ -138,11 +147,31 @@ func main() {
 	var lines []string
 	var js []interface{}
 
+	var props []wbProp // proposals applied after the configuration, for the next run only
 	run := func(c *c09lib.Cfg, t c09lib.TxSpec, tag string) {
 		ctx, _ := base.CacheContext()
 		if err := e.Apply(ctx, c); err != nil {
 			dist.Inc("config-refused")
 			return
+		}
+		myProps := props
+		props = nil
+		var propCoq []string
+		var propJS []interface{}
+		for i, p := range myProps {
+			h := tokens.NewApplyWhiteBlackChangeProposalHandler(e.App.TokensKeeper)
+			var perr error
+			pp := hx.Try(func() {
+				perr = h.Apply(ctx, uint64(i+1), &tokenstypes.ProposalTokensWhiteBlackChange{IsBlacklist: p.Black, IsAdd: p.Add, Tokens: append([]string{}, p.Tokens...)}, sdk.ZeroDec())
+			})
+			if pp != "" || perr != nil {
+				panic(fmt.Sprintf("proposal handler: %v %v", pp, perr))
+			}
+			bw := e.App.TokensKeeper.GetTokenBlackWhites(ctx)
+			propCoq = append(propCoq, hx.Pair(fmt.Sprintf("mkProp %s %s %s", hx.B(p.Black), hx.B(p.Add), c09lib.StrListCoq(p.Tokens)),
+				hx.Pair(c09lib.StrListCoq(bw.Blacklisted), c09lib.StrListCoq(bw.Whitelisted))))
+			propJS = append(propJS, map[string]interface{}{"proposal": p, "blacklist_after": bw.Blacklisted, "whitelist_after": bw.Whitelisted})
+			dist.Inc(fmt.Sprintf("proposal:black=%v:add=%v", p.Black, p.Add))
 		}
 		accts := e.AcctsCoq(ctx, watch)
 		before := e.Balances(ctx, watch)
@@ -196,14 +225,19 @@ func main() {
 		signers := c09lib.SignersOf(t)
 		obs := fmt.Sprintf("(mkObs %d %s %s %s %s [])", class, c09lib.DeltasCoq(deltas), e.AcctsCoq(ctx, signers), e.ExecsCoq(ctx),
 			c09lib.StrListCoq(e.MarksPresent(ctx, t.Msgs)))
-		lines = append(lines, fmt.Sprintf("C14Tx %s %s %s %s %s %s %s", e.CfgCoq(c), accts, c09lib.BalsCoq(before), c09lib.StrListCoq(watch),
-			c09lib.StrListCoq(c09lib.Denoms), t.Coq(), obs))
+		if len(myProps) > 0 {
+			lines = append(lines, fmt.Sprintf("C14Gov %s %s %s %s %s %s %s %s", e.CfgCoq(c), hx.List(propCoq), accts, c09lib.BalsCoq(before), c09lib.StrListCoq(watch),
+				c09lib.StrListCoq(c09lib.Denoms), t.Coq(), obs))
+		} else {
+			lines = append(lines, fmt.Sprintf("C14Tx %s %s %s %s %s %s %s", e.CfgCoq(c), accts, c09lib.BalsCoq(before), c09lib.StrListCoq(watch),
+				c09lib.StrListCoq(c09lib.Denoms), t.Coq(), obs))
+		}
 		var types []string
 		for _, m := range t.Msgs {
 			types = append(types, m.Type())
 		}
 		js = append(js, map[string]interface{}{"level": "ante handler + message handlers", "tag": tag, "config": c.JSON(), "tx": t.JSON(), "class": class,
-			"class_meaning": "0 delivered | 1 rejected by ante | 2 message failed | 3 panic in ante | 4 panic in a message after admission", "error": errText, "balance_deltas": deltas, "msg_types": types})
+			"class_meaning": "0 delivered | 1 rejected by ante | 2 message failed | 3 panic in ante | 4 panic in a message after admission", "error": errText, "balance_deltas": deltas, "msg_types": types, "governance_proposals_applied_first": propJS})
 		weak := uint64(c.NVals) < c.MinVals
 		dist.Inc(fmt.Sprintf("class%d", class))
 		dist.Inc(fmt.Sprintf("weak=%v:class%d", weak, class))
@@ -254,6 +288,39 @@ func main() {
 						ms = append(ms, c09lib.M{Kind: "send", From: "a0", To: "a1", Amt: sdk.NewCoins(sdk.NewInt64Coin("ukex", 5))})
 					}
 					run(c, c09lib.TxSpec{Fee: fee(200), Msgs: ms, Seqs: []uint64{0}, SigOK: true}, "sweep")
+				}
+			}
+		}
+	}
+	// GOVERNANCE of the freeze lists through the real proposal handler: add / remove x blacklist / whitelist x token
+	// lists with already-listed + new tokens in every order, duplicates, the native token, the empty list;
+	// then a send of / a fee in a token the proposal names, and a two-coin send
+	{
+		K := func(d string, v int64) sdk.Coin { return sdk.NewInt64Coin(d, v) }
+		lists := [][]string{{"frozen", "ubtc"}, {"ubtc", "frozen"}, {"ubtc", "ubtc", "xeth"}, {}, {"ukex", "ubtc"}, {"xeth", "frozen", "ubtc"}, {"ubtc"}, {"frozen", "frozen"}, {"ufoo", "frozen", "xeth", "ubtc"}}
+		for _, black := range []bool{true, false} {
+			for _, add := range []bool{true, false} {
+				for _, l := range lists {
+					for v := 0; v < 3; v++ {
+						c := baseCfg()
+						c.Black, c.White = []string{"frozen"}, []string{"ukex", "frozen"}
+						if !add { // something to remove
+							c.Black, c.White = []string{"frozen", "xeth", "ubtc"}, []string{"ukex", "frozen", "ubtc", "xeth"}
+						}
+						c.EnBlack, c.EnWhite = black, !black
+						props = []wbProp{{Black: black, Add: add, Tokens: l}}
+						if v == 2 { // a second proposal on top of the first
+							props = append(props, wbProp{Black: black, Add: !add, Tokens: []string{"xeth"}})
+						}
+						switch v {
+						case 0:
+							run(c, c09lib.TxSpec{Fee: fee(150), Msgs: []c09lib.M{{Kind: "send", From: "a2", To: "a3", Amt: sdk.Coins{K("ubtc", 5)}}}, Seqs: []uint64{0}, SigOK: true}, "governance")
+						case 1:
+							run(c, c09lib.TxSpec{Fee: []sdk.Coin{K("ubtc", 50)}, Msgs: []c09lib.M{{Kind: "send", From: "a2", To: "a3", Amt: sdk.Coins{K("ukex", 5)}}}, Seqs: []uint64{0}, SigOK: true}, "governance")
+						default:
+							run(c, c09lib.TxSpec{Fee: fee(150), Msgs: []c09lib.M{g.msg(c, "register_identity_records", "a2", ""), {Kind: "send", From: "a2", To: "a3", Amt: sdk.Coins{K("ubtc", 5), K("xeth", 4)}}}, Seqs: []uint64{0}, SigOK: true}, "governance")
+						}
+					}
 				}
 			}
 		}
@@ -453,6 +520,15 @@ func main() {
 			f = fee(int64(r.Intn(200)))
 		}
 		t.Fee, t.Seqs = f, seqs
+		if r.Chance(25) { // 1-3 random proposals on top of the random lists
+			for k := 0; k < 1+r.Intn(3); k++ {
+				var l []string
+				for j := 0; j < r.Intn(4); j++ {
+					l = append(l, c09lib.Denoms[r.Intn(len(c09lib.Denoms))])
+				}
+				props = append(props, wbProp{Black: r.Bool(), Add: r.Chance(60), Tokens: l})
+			}
+		}
 		run(c, t, "random")
 	}
 
